@@ -308,6 +308,12 @@ def gen_spec(tape, cfg: dict[str, Any]) -> dict:
     n_types = tape.rng_int(*cfg["n_types"], "n_types")
     n_work = tape.rng_int(*cfg["n_work"], "n_work")
     types = [f"E{i}" for i in range(n_types)]
+    if cfg.get("p_subclass") and n_types >= 2 and tape.chance(cfg["p_subclass"], 100, "subclass?"):
+        # one type is a *subclass* of an earlier one: routing must go by exact type
+        j = tape.rng_int(1, n_types - 1, "subclass.j")
+        b = tape.rng_int(0, min(j - 1, 2), "subclass.base")
+        if f"E{b}s" not in types:
+            types[j] = f"E{b}s"
     names = [f"w{i}" for i in range(n_work)]
     accepts: dict[str, list[str]] = {n: [] for n in names}
     for t in types:
@@ -398,7 +404,7 @@ def gen_spec(tape, cfg: dict[str, Any]) -> dict:
                         target = tape.choice([s for s in names if o in accepts[s]], "target")
                     sc.append(("send", o, target, cnt))
             if tape.chance(cfg["p_unhandled"], 100, "unhandled?"):
-                sc.append(("send", "X0", None, 1))
+                sc.append(("send", "E0x" if (cfg.get("p_subclass") and tape.chance(40, 100, "unhandled.sub")) else "X0", None, 1))
             if not sync and tape.chance(40, 100, "work2"):
                 sc.append(("work",))
             if driver == "result" and stop_owner and n in stop_owner and t == types[-1]:
@@ -890,7 +896,8 @@ def _hashable(u: Any) -> Any:
 async def external_sender(world: EngineWorld, spec: dict, handler) -> None:
     """Sends 1-3 events from outside at tape-chosen instants (accepted types, or the never-accepted X0)."""
     n = world.tape.rng_int(1, 3, "ext.n")
-    pool = list(spec["types"]) + (["X0"] if world.cfg.get("ext_unhandled", True) else [])
+    pool = list(spec["types"]) + (["X0"] if world.cfg.get("ext_unhandled", True) else []) + \
+        (["E0x"] if (world.cfg.get("ext_unhandled", True) and world.cfg.get("p_subclass")) else [])
     for _ in range(n):
         d = world.tape.choice(world.cfg["grid"], "ext.delay")
         if d:
